@@ -934,7 +934,6 @@ func (p *Program) isRemoteMailboxFactory(fn *ssa.Function) bool {
 	return isPtr && fn.Signature.Params().Len() >= 1 && namedOf(fn.Signature.Recv().Type()) != namedOf(res.At(0).Type())
 }
 
-
 // c07StartStopSerialised: Start flips the status before it has created the root actor, so a concurrent Stop passes its status
 // check while the start-up chain is still running. Unless the *work* of the two is serialised, Stop finds nothing to stop,
 // returns success, and Start goes on creating actors (F35). Decided structurally: there is a mutex L of the system (not the
